@@ -68,9 +68,9 @@ func (prop) ID() string { return "C17" }
 
 func (prop) Plan(tier string) []core.Phase {
 	if tier == "thorough" {
-		return []core.Phase{{Name: "race", Race: true, Runs: 600000}, {Name: "plain", Runs: 6000000}}
+		return []core.Phase{{Name: "race", Race: true, Runs: 3000000}, {Name: "plain", Runs: 20000000}}
 	}
-	return []core.Phase{{Name: "race", Race: true, Runs: 16000}, {Name: "plain", Runs: 120000}}
+	return []core.Phase{{Name: "race", Race: true, Runs: 60000}, {Name: "plain", Runs: 400000}}
 }
 
 func (prop) Describe() core.Description {
@@ -363,7 +363,7 @@ func runCall(c *Call, items []*item) (out string) {
 	}
 	defer func() {
 		if r := recover(); r != nil {
-			out = fmt.Sprintf("panic: %v", r)
+			out = scrub(fmt.Sprintf("panic: %v", r))
 		}
 	}()
 	return canon(f.f(c, args))
